@@ -208,7 +208,14 @@ theorem semShuffle_perm (n : Nat) (hn : 0 < n) (perm : List Nat) (l : List Val) 
 
 /-! ### groupby -/
 
-/-- groups: consecutive non-empty runs with constant key whose concatenation is the input -/
+/-- no two neighbouring groups have the same key -/
+def adjDistinct : List (Val × List Val) → Prop
+  | [] => True
+  | [_] => True
+  | a :: b :: r => a.1 ≠ b.1 ∧ adjDistinct (b :: r)
+
+/-- groups: consecutive non-empty runs with constant key whose concatenation is the input, and
+    neighbouring groups have different keys (so the runs are maximal) -/
 theorem semGroup_shape (key : Val → Res) (k : Val → Val) (l : List Val)
     (hk : ∀ v ∈ l, key v = .ok (k v)) :
     ∀ cur : Option (Val × List Val),
@@ -219,17 +226,23 @@ theorem semGroup_shape (key : Val → Res) (k : Val → Val) (l : List Val)
       (gs.map (·.2)).flatten = (match cur with
         | some c => c.2
         | Option.none => []) ++ l ∧
-      ∀ g ∈ gs, g.2 ≠ [] ∧ ∀ x ∈ g.2, k x = g.1 := by
+      (∀ g ∈ gs, g.2 ≠ [] ∧ ∀ x ∈ g.2, k x = g.1) ∧
+      adjDistinct gs ∧
+      (∀ c, cur = some c → ∃ g0 rest, gs = g0 :: rest ∧ g0.1 = c.1) := by
   induction l with
   | nil =>
     intro cur hc
     cases cur with
-    | none => exact ⟨[], by simp [semGroup, Strm.empty]⟩
+    | none => exact ⟨[], by simp [semGroup, Strm.empty, adjDistinct]⟩
     | some c =>
       obtain ⟨ck, cl⟩ := c
-      refine ⟨[(ck, cl)], by simp [semGroup], by simp [semGroup], by simp, ?_⟩
-      simp only [List.mem_singleton, forall_eq]
-      exact hc _ rfl
+      refine ⟨[(ck, cl)], by simp [semGroup], by simp [semGroup], by simp, ?_, trivial, ?_⟩
+      · simp only [List.mem_singleton, forall_eq]
+        exact hc _ rfl
+      · intro c hcs
+        simp only [Option.some.injEq] at hcs
+        subst hcs
+        exact ⟨_, _, rfl, rfl⟩
   | cons v r ih =>
     intro cur hc
     simp only [List.forall_mem_cons] at hk
@@ -237,19 +250,19 @@ theorem semGroup_shape (key : Val → Res) (k : Val → Val) (l : List Val)
     cases cur with
     | none =>
       simp only
-      obtain ⟨gs, h1, h2, h3, h4⟩ := ih hk.2 (some (k v, [v])) (by
+      obtain ⟨gs, h1, h2, h3, h4, h5, _⟩ := ih hk.2 (some (k v, [v])) (by
         intro c hcs
         simp only [Option.some.injEq] at hcs
         subst hcs
         simp)
-      exact ⟨gs, h1, h2, by simpa using h3, h4⟩
+      exact ⟨gs, h1, h2, by simpa using h3, h4, h5, by simp⟩
     | some c =>
       obtain ⟨ck, cl⟩ := c
       have hc' := hc _ rfl
       simp only at hc' ⊢
       by_cases heq : k v = ck
       · simp only [heq, if_true]
-        obtain ⟨gs, h1, h2, h3, h4⟩ := ih hk.2 (some (ck, cl ++ [v])) (by
+        obtain ⟨gs, h1, h2, h3, h4, h5, h6⟩ := ih hk.2 (some (ck, cl ++ [v])) (by
           intro c hcs
           simp only [Option.some.injEq] at hcs
           subst hcs
@@ -259,18 +272,32 @@ theorem semGroup_shape (key : Val → Res) (k : Val → Val) (l : List Val)
           rcases hx with hx | rfl
           · exact hc'.2 x hx
           · exact heq)
-        exact ⟨gs, h1, h2, by simpa using h3, h4⟩
+        refine ⟨gs, h1, h2, by simpa using h3, h4, h5, ?_⟩
+        intro c hcs
+        simp only [Option.some.injEq] at hcs
+        subst hcs
+        exact h6 (ck, cl ++ [v]) rfl
       · simp only [heq, if_false]
-        obtain ⟨gs, h1, h2, h3, h4⟩ := ih hk.2 (some (k v, [v])) (by
+        obtain ⟨gs, h1, h2, h3, h4, h5, h6⟩ := ih hk.2 (some (k v, [v])) (by
           intro c hcs
           simp only [Option.some.injEq] at hcs
           subst hcs
           simp)
-        refine ⟨(ck, cl) :: gs, by simp [Strm.cons, h1], by simpa [Strm.cons] using h2, ?_, ?_⟩
+        obtain ⟨g0, rest, hgs, hg0⟩ := h6 _ rfl
+        refine ⟨(ck, cl) :: gs, by simp [Strm.cons, h1], by simpa [Strm.cons] using h2, ?_, ?_, ?_, ?_⟩
         · simp only [List.map_cons, List.flatten_cons, h3]
           simp
         · simp only [List.forall_mem_cons]
           exact ⟨hc', h4⟩
+        · rw [hgs] at h5 ⊢
+          refine ⟨?_, h5⟩
+          simp only at hg0 ⊢
+          rw [hg0]
+          exact fun h => heq h.symm
+        · intro c hcs
+          simp only [Option.some.injEq] at hcs
+          subst hcs
+          exact ⟨_, _, rfl, rfl⟩
 
 /-! ### accumulate -/
 
